@@ -20,6 +20,12 @@ if git apply --check "$OUT/change$N.diff" 2>/tmp/seedchk/$P-$N.applyerr; then
   applies=true
   git apply "$OUT/change$N.diff"
   suite=$(cargo nextest run --workspace --no-fail-fast --test-threads 8 --offline 2>&1 | grep -E "Summary|tests run" | tail -1)
+  # two example tests bind fixed ports (12231/12232) and collide with any concurrent run of the suite: retry up to twice
+  for attempt in 1 2; do
+    case "$suite" in *"222 passed"*) break;; esac
+    sleep $((RANDOM % 20 + 5))
+    suite=$(cargo nextest run --workspace --no-fail-fast --test-threads 8 --offline 2>&1 | grep -E "Summary|tests run" | tail -1)" (retry $attempt)"
+  done
   cp "$OUT/demo$N.rs" "dropshot/tests/$DEMO.rs"
   demo_with=$(cargo nextest run -p dropshot --test "$DEMO" --no-fail-fast --offline 2>&1 | grep -E "Summary|tests run|error" | tail -1)
   git apply -R "$OUT/change$N.diff"
